@@ -19,7 +19,7 @@ pub fn property() -> Property {
         parts: vec![
             Part {
                 name: "exact",
-                quick: 2_400,
+                quick: 4_000,
                 thorough: 60_000,
                 single_shard: false, supplementary: false,
                 run: |cfg| run_part(cfg, (prop_oneof![3 => gen::raw_pos(70), 2 => gen::raw_pos_endgames(), 2 => gen::raw_synth_profiles(8, 9).prop_map(gen::RawPos::Synth)], 1..=3u32, proptest::collection::vec((gen::raw_pos(40), 1..=4u32, 0..10u8), 0..=3)), |(r, d, w)| exact_case(r, *d, w), check_exact),
@@ -27,7 +27,7 @@ pub fn property() -> Property {
             },
             Part {
                 name: "searchmoves_exact",
-                quick: 1_600,
+                quick: 4_000,
                 thorough: 60_000,
                 single_shard: false, supplementary: false,
                 run: |cfg| run_part(cfg, (prop_oneof![2 => gen::raw_pos_endgames(), 1 => gen::raw_pos(60), 1 => gen::raw_synth_profiles(8, 9).prop_map(gen::RawPos::Synth)], 1..=2u32, any::<u16>()), |(r, d, x)| sm_case(r, *d, *x), check_searchmoves),
@@ -35,7 +35,7 @@ pub fn property() -> Property {
             },
             Part {
                 name: "mates",
-                quick: 1_200,
+                quick: 2_000,
                 thorough: 40_000,
                 single_shard: false, supplementary: false,
                 run: |cfg| run_part(cfg, (gen::raw_pos_endgames(), 0..3u8), |(r, k)| MateCase { fen: gen::position(r, ClockDomain::EngineQuiet).fen(), probe_depth: [1, 3, 5][*k as usize] }, check_mates),
@@ -93,7 +93,7 @@ pub fn run_search(s: &mut Session, fen: &str, moves: &[String], spec: &GoSpec) -
     s.position(fen, moves)?;
     match s.search(spec) {
         Wait::Done(o) => Ok(o),
-        Wait::ThreadDied(why) => Err(format!("no answer to `{}` for {fen}: {why}", spec.to_line())),
+        Wait::ThreadDied(why, _) => Err(format!("no answer to `{}` for {fen}: {why}", spec.to_line())),
         Wait::Timeout => Err(format!("{HARNESS_PREFIX} watchdog: no bestmove within 90 s for {fen}")),
     }
 }
